@@ -22,7 +22,7 @@ use truc::record::{
 use vharness::{arg_value, vt::*, Rng};
 
 /// (type expression, Copy, has a token, owns a ledger entry)
-const PALETTE: [(&str, bool, bool); 12] = [
+const PALETTE: [(&str, bool, bool); 13] = [
     ("u8", true, true),
     ("u16", true, true),
     ("u32", true, true),
@@ -35,6 +35,7 @@ const PALETTE: [(&str, bool, bool); 12] = [
     ("vharness::vt::Pz", true, false),
     ("vharness::vt::Nc", false, true),
     ("Option<u32>", true, true),
+    ("[u64; 0]", true, false), // zero-size, alignment 8
 ];
 
 fn add(b: &mut NativeRecordDefinitionBuilder<HostTypeResolver>, ty: usize, name: String, uninit: bool) -> Result<DatumId, String> {
@@ -63,6 +64,7 @@ fn add(b: &mut NativeRecordDefinitionBuilder<HostTypeResolver>, ty: usize, name:
         9 => go!(Pz),
         10 => go!(nc Nc),
         11 => go!(Option<u32>),
+        12 => go!([u64; 0]),
         _ => unreachable!(),
     }
 }
@@ -142,7 +144,8 @@ fn gen_spec(rng: &mut Rng) -> String {
     for v in 0..nv {
         let mut removed_names = Vec::new();
         if v > 0 {
-            let nrm = rng.below(1 + cur.len().min(3));
+            // one step in ten removes everything that is live (the variant is empty unless something is added)
+            let nrm = if rng.chance(10) { cur.len() } else { rng.below(1 + cur.len().min(3)) };
             for _ in 0..nrm {
                 if cur.is_empty() {
                     break;
@@ -154,7 +157,7 @@ fn gen_spec(rng: &mut Rng) -> String {
                 gone.push(name);
             }
         }
-        let nadd = if v == 0 { rng.below(6) } else { rng.below(4) };
+        let nadd = if v > 0 && cur.is_empty() && rng.chance(60) { 0 } else if v == 0 { rng.below(6) } else { rng.below(4) };
         for _ in 0..nadd {
             // sometimes the name of a datum removed in this very step (a type change)
             let mut reused = false;
@@ -167,7 +170,7 @@ fn gen_spec(rng: &mut Rng) -> String {
             };
             let mut ty = rng.below(PALETTE.len());
             if flavor < 2 {
-                const PLAIN: [usize; 7] = [0, 1, 2, 3, 4, 9, 11];
+                const PLAIN: [usize; 8] = [0, 1, 2, 3, 4, 9, 11, 12];
                 ty = PLAIN[rng.below(PLAIN.len())];
             }
             let uninit = PALETTE[ty].1 && match flavor {
@@ -422,11 +425,21 @@ pub fn checkpoint(out: &mut Vec<String>, m: usize, what: &str) {
             if what.contains("clone") {
                 out.push(format!("FAIL {} C16 {}: {}", m, what, e));
             }
+            if what.contains("serde") {
+                out.push(format!("FAIL {} C15 {}: {}", m, what, e));
+            }
         }
     }
     let live = take_live();
     if !live.is_empty() {
         out.push(format!("FAIL {} C06 {}: values were never destroyed: {}", m, what, live.join(", ")));
+        // a leak while cloning (a clone that panics half-way included) is C16's, while decoding C15's
+        if what.contains("clone") {
+            out.push(format!("FAIL {} C16 {}: values were never destroyed: {}", m, what, live.join(", ")));
+        }
+        if what.contains("serde") {
+            out.push(format!("FAIL {} C15 {}: values were never destroyed: {}", m, what, live.join(", ")));
+        }
     }
     #[cfg(truc_verif)]
     {
@@ -471,25 +484,42 @@ fn main() {
     let mut main = String::from("#![allow(unexpected_cfgs)]\n#[macro_use]\nextern crate static_assertions;\npub mod support;\n");
     writeln!(main, "pub const WRITE_NEEDS_ALIGNMENT: bool = {};", write_aligned).unwrap();
     let mut index = String::new();
+    let mut panics = String::new();
+    let mut generated: Vec<usize> = Vec::new();
+    std::panic::set_hook(Box::new(|_| {}));
     for (k, spec) in specs.iter().enumerate() {
         writeln!(index, "{} {}", k, spec).unwrap();
         if skip_mod.contains(&k) {
             continue;
         }
-        let d = build(spec);
-        let text = generate(&d.def, &cfg());
+        // the builder or the generator panicking on a definition is an observation, not a harness failure
+        let built = std::panic::catch_unwind(std::panic::AssertUnwindSafe(|| {
+            let d = build(spec);
+            let text = generate(&d.def, &cfg());
+            (d, text)
+        }));
+        let (d, text) = match built {
+            Ok(x) => x,
+            Err(e) => {
+                let msg = e.downcast_ref::<String>().cloned().or_else(|| e.downcast_ref::<&str>().map(|s| s.to_string())).unwrap_or_else(|| "?".to_owned());
+                writeln!(panics, "{} {}", k, msg.replace('\n', " ")).unwrap();
+                continue;
+            }
+        };
+        generated.push(k);
         fs::write(format!("{}/src/m{}.rs", out, k), format!("#![allow(dead_code, unused_imports, clippy::all)]\n{}", text)).unwrap();
         fs::write(format!("{}/src/d{}.rs", out, k), driver(k, &d, !skip_andout.contains(&k))).unwrap();
         writeln!(main, "pub mod m{k};\nmod d{k};").unwrap();
     }
     writeln!(main, "fn main() {{\n    std::panic::set_hook(Box::new(|_| {{}}));\n    let only: Option<usize> = std::env::args().nth(1).and_then(|s| s.parse().ok());").unwrap();
-    for k in (0..specs.len()).filter(|k| !skip_mod.contains(k)) {
+    for k in generated.iter().cloned() {
         writeln!(main, "    if only.map_or(true, |o| o == {k}) {{ let mut out = Vec::new(); if std::panic::catch_unwind(std::panic::AssertUnwindSafe(|| d{k}::run(&mut out))).is_err() {{ out.push(\"FAIL {k} C04 the driver panicked\".to_owned()); }} for l in out {{ println!(\"{{}}\", l); }} }}").unwrap();
     }
     writeln!(main, "}}").unwrap();
     fs::write(format!("{}/src/main.rs", out), main).unwrap();
     fs::write(format!("{}/src/support.rs", out), SUPPORT).unwrap();
     fs::write(format!("{}/index.txt", out), index).unwrap();
+    fs::write(format!("{}/panics.txt", out), panics).unwrap();
     fs::write(
         format!("{}/Cargo.toml", out),
         r#"[package]
